@@ -188,6 +188,7 @@ def invariance_worker(case):
 
 # -- E, N: exactness and positivity -----------------------------------------------------------------------------
 def exact_worker(N):
+    case = N
     NM, Q = load()
     eng = Engine(timeout_ms=30000)
     res = dict(stats=None, violations=[], inconclusive=[], samples=[], functions=[
@@ -196,10 +197,14 @@ def exact_worker(N):
         'src/quadrature.py:gauss_x_quadrature_scheme'], evaluations=0, nontrivial=0)
 
     def viol(sig, what):
-        rp = dict(kind='exact', N=N, what=what)
-        res['violations'].append(dict(signature='%s:N=%d' % (sig, N), what=what, replay=rp, reproduced=replay(rp)))
+        rp = dict(kind='exact', N=list(case) if isinstance(case, (tuple, list)) else case, what=what)
+        res['violations'].append(dict(signature='%s:N=%s' % (sig, case), what=what, replay=rp, reproduced=replay(rp)))
     try:
-        n12 = N if N <= 21 else 21
+        pairN = N
+        if isinstance(N, (tuple, list)):     # two different orders: each seminorm must use the rule of ITS order
+            N, n12 = N
+        else:
+            n12 = N if N <= 21 else 21
         try:
             S = exact_slobodeckij(NM, Q, N, n12)
         except Exception as e:
@@ -216,7 +221,7 @@ def exact_worker(N):
                 viol('weights', 'order %d: %s has a non-positive entry (the seminorm could become negative)' % (N, nm))
         d = (N - 1) // 2
         for name, sem, Bf, order in (('H^{1/4}', S.seminorm_h_1_4, B14, N), ('H^{1/2}', S.seminorm_h_1_2, B12, n12)):
-            if name == 'H^{1/2}' and N > 21:
+            if name == 'H^{1/2}' and N > 21 and not isinstance(pairN, (tuple, list)):
                 continue
             dd = (order - 1) // 2
             for i in range(0, dd + 1):
@@ -256,9 +261,9 @@ def exact_worker(N):
                 else:
                     continue
                 break
-        res['samples'].append(dict(order=N, max_degree=d, gram_entries=(d + 1) * (d + 2) // 2))
+        res['samples'].append(dict(order=pairN, max_degree=d, gram_entries=(d + 1) * (d + 2) // 2))
     except Inconclusive as e:
-        res['inconclusive'].append('exactness N=%d: %s' % (N, e))
+        res['inconclusive'].append('exactness N=%s: %s' % (N, e))
     res['stats'] = eng.stats
     return res
 
@@ -272,13 +277,17 @@ def replay(rp):
     try:
         if rp['kind'] == 'exact':
             N = rp['N']
+            if isinstance(N, (tuple, list)):
+                N, N12 = N
+            else:
+                N12 = min(N, 21)
             try:
-                S = NM.Slobodeckij(N, min(N, 21))
+                S = NM.Slobodeckij(N, N12)
             except Exception:
                 return True
             if min(np.min(S.semi_1_4_weights), np.min(S.semi_1_2_weights)) <= 0:
                 return True
-            for name, sem, Bf, order in (('14', S.seminorm_h_1_4, B14, N), ('12', S.seminorm_h_1_2, B12, min(N, 21))):
+            for name, sem, Bf, order in (('14', S.seminorm_h_1_4, B14, N), ('12', S.seminorm_h_1_2, B12, N12)):
                 dd = (order - 1) // 2
                 for i in range(dd + 1):
                     for j in range(i, dd + 1):
@@ -337,7 +346,7 @@ def run(out):
     inv = [(1, 1), (3, 2)] if quick else [(1, 1), (3, 2), (5, 2), (7, 3)]
     for c, r in zip(inv, report.pmap('checks.c14', 'invariance_worker', inv)):
         report.merge_worker(out, r, part='I invariances (symbolic interval)')
-    orders = list(range(1, 24, 2))
+    orders = list(range(1, 24, 2)) + [(7, 3), (3, 7)] + ([] if quick else [(11, 5), (5, 11), (23, 1), (1, 21)])
     for c, r in zip(orders, report.pmap('checks.c14', 'exact_worker', orders)):
         report.merge_worker(out, r, part='E exactness / N positivity')
     out.bounds = dict(invariance_orders=[c[0] for c in inv], polynomial_degree=[c[1] for c in inv],
